@@ -200,7 +200,7 @@ static void checkRequestAnswered(const World &w, const SymIq &q, int own)
 template<bool META> struct InjectCase {
     template<unsigned TY, unsigned K> static void run()
     {
-        if (K >= CLI_CASES) return;
+        if (K >= CLI_CASES || (TY >= TY_RESULT && K != 1) || (META && K == 2)) return;   // responses: the 2-extension chain only
         SymIq q; symIq(q, TY, CLI_SHAPE[K], true);
         World w(CLI_NEXT[K], q);
         std::optional<QXmppE2eeMetadata> meta;
@@ -232,7 +232,7 @@ extern "C" void h_cli_inject_noiq() { internAttrs(); keepHooks(); DISPATCH_REQ(i
 // ---- (2b) the whole receive path of a connected client: QXmppOutgoingClient::handleElement ---------------------------------------
 template<unsigned TY, unsigned K> static void streamCase()
 {
-    if (K >= CLI_CASES) return;
+    if (K >= CLI_CASES || (TY >= TY_RESULT && K == 2)) return;
     SymIq q; symIq(q, TY, CLI_SHAPE[K], true);
     World w(CLI_NEXT[K], q);
     const HandleElementResult res = w.stream->handleElement(q.iq);
@@ -255,7 +255,7 @@ extern "C" void h_cli_stream_resp() { internAttrs(); keepHooks(); DISPATCH_RESP(
 // ---- (2c) the fallback alone: QXmppOutgoingClient::handleStanza --------------------------------------------------------------------
 template<unsigned TY, unsigned K> static void fallbackCase()
 {
-    if (K >= 4) return;
+    if (K != 1 && K != 2) return;    // (no child, from present) and (foreign payload, from absent)
     SymIq q; symIq(q, TY, (K & 2) ? SH_PING : SH_NONE, K & 1);
     World w(0, q);
     const bool r = w.stream->handleStanza(q.iq);
